@@ -1,5 +1,88 @@
 import KrroodVerif.Sexp
+import KrroodVerif.Model.Descriptor
+/-!
+C15 driver. Case: `(h (fields (cls prop kind)…) (supers (p a…)…) (inv (p q)…) (trans p…) (objs (cls rt|-)…)
+(ops (set f s t) (add f s t) (assign f s x…)…))`.
+Output: `R[f:s:t,…]|F[f.o=t,t;…;f.o~t|t;…]` — relation triples sorted; per field and object of its class the sorted
+targets (`=` container contents, `~` admissible values of a single-valued field).
+-/
 namespace KrroodVerif.Drive.C15
-/-- stub: replaced when the model for C15 is built -/
-def run (_ : Sexp) : String := "model=unimplemented\tspec=unimplemented\ttrig="
+open KrroodVerif.PD
+
+def parseKind : Sexp → Option Kind
+  | .atom "single" => some .single | .atom "list" => some .list | .atom "set" => some .set | _ => none
+
+def parseNats (xs : List Sexp) : Option (List Nat) := xs.mapM Sexp.asNat?
+
+def parseSchema (items : List Sexp) : Option Schema := do
+  let fs ← (← Sexp.field? items "fields").mapM fun x => match x with
+    | .list [c, p, k] => do pure (⟨← c.asNat?, ← p.asNat?, ← parseKind k⟩ : FieldDecl)
+    | _ => none
+  let sup ← (← Sexp.field? items "supers").mapM fun x => match x with
+    | .list (p :: r) => do pure ((← p.asNat?), (← parseNats r))
+    | _ => none
+  let inv ← (← Sexp.field? items "inv").mapM fun x => match x with
+    | .list [p, q] => do pure ((← p.asNat?), (← q.asNat?))
+    | _ => none
+  let tr ← parseNats (← Sexp.field? items "trans")
+  pure { fields := fs, supers := sup, inverse := inv, transProps := tr }
+
+def parseWorld (items : List Sexp) : Option World := do
+  let os ← (← Sexp.field? items "objs").mapM fun x => match x with
+    | .list [c, .atom "-"] => do pure ((← c.asNat?), (none : Option Nat))
+    | .list [c, r] => do pure ((← c.asNat?), some (← r.asNat?))
+    | _ => none
+  pure { cls := os.map (·.1), rt := os.map (·.2) }
+
+def parseOp : Sexp → Option Op
+  | .list [.atom "set", f, s, t] => do pure (.set1 (← f.asNat?) (← s.asNat?) (← t.asNat?))
+  | .list [.atom "add", f, s, t] => do pure (.add (← f.asNat?) (← s.asNat?) (← t.asNat?))
+  | .list [.atom "assign1", f, s, t] => do pure (.assign (← f.asNat?) (← s.asNat?) [← t.asNat?])
+  | .list (.atom "assign" :: f :: s :: xs) => do pure (.assign (← f.asNat?) (← s.asNat?) (← parseNats xs))
+  | _ => none
+
+def factLt (a b : Fact) : Bool :=
+  a.1 < b.1 || (a.1 == b.1 && (a.2.1 < b.2.1 || (a.2.1 == b.2.1 && a.2.2 < b.2.2)))
+
+def sortFacts (xs : List Fact) : List Fact :=
+  xs.foldl (fun acc x =>
+    if acc.contains x then acc else
+    let (a, b) := acc.span (fun y => factLt y x)
+    a ++ [x] ++ b) []
+
+def showRels (g : List Fact) : String :=
+  "R[" ++ ",".intercalate ((sortFacts g).map fun r => s!"{r.1}:{r.2.1}:{r.2.2}") ++ "]"
+
+def targetsOf (g : List Fact) (f o : Nat) : List Nat :=
+  hashOrder ((g.filter fun r => r.1 == f && r.2.1 == o).map (·.2.2))
+
+/-- `content f o` = what the container field holds -/
+def showFields (S : Schema) (W : World) (content : Nat → Nat → List Nat) (g : List Fact) : String :=
+  let items := (List.range S.fields.length).flatMap fun f =>
+    ((List.range W.size).filter fun o => W.clsOf o == (S.decl f).cls).map fun o =>
+      match S.kindOf f with
+      | .single => s!"{f}.{o}~" ++ "|".intercalate ((targetsOf g f o).map toString)
+      | _ => s!"{f}.{o}=" ++ ",".intercalate ((hashOrder (content f o)).map toString)
+  "F[" ++ ";".intercalate items ++ "]"
+
+def inRange (S : Schema) (W : World) (ops : List Op) : Bool :=
+  (asserted ops).all fun r => r.1 < S.fields.length && r.2.1 < W.size && r.2.2 < W.size
+
+def run (s : Sexp) : String :=
+  match s with
+  | .list (.atom "h" :: items) =>
+    match parseSchema items, parseWorld items, (Sexp.field? items "ops").bind (·.mapM parseOp) with
+    | some S, some W, some ops =>
+      if !(inRange S W ops && ops.all (·.wellKinded S.kindOf) && W.rt.all (fun r => match r with | some x => x < W.size | none => true))
+      then "error=ill-formed-case" else
+      let σ := runModel S W ops
+      let model := showRels σ.g ++ "|" ++ showFields S W (fun f o => σ.st f o) σ.g
+      let cl := closure (schemaRules S W) (fuelFor S W) (asserted ops)
+      let spec := if cl.2 then showRels cl.1 ++ "|" ++ showFields S W (fun f o => targetsOf cl.1 f o) cl.1
+                  else "spec-diverged"
+      let trig := if σ.clob then "F-C15-1" else ""
+      s!"model={model}\tspec={spec}\ttrig={trig}"
+    | _, _, _ => "error=bad-case"
+  | _ => "error=bad-case"
+
 end KrroodVerif.Drive.C15
